@@ -173,9 +173,16 @@ mod timeconv {
         }
     }
 
+    // The model's time unit is abstract: every vector is run at several concrete granularities (seconds down to
+    // single nanoseconds inside one microsecond) and from bases before and after the epoch.
+    thread_local! { static UNIT_NS: std::cell::Cell<u64> = std::cell::Cell::new(1_000_000_000); }
+    fn units(n: u64) -> Duration {
+        Duration::from_nanos(n * UNIT_NS.with(|u| u.get()))
+    }
+
     fn partial(p: &Value, base: SystemTime, i0: Instant) -> PartialComplexTime {
-        let w = p["w"].get(0).and_then(|x| x.as_u64()).map(|s| base + Duration::from_secs(s));
-        let m = p["m"].get(0).and_then(|x| x.as_u64()).map(|s| i0 + Duration::from_secs(s));
+        let w = p["w"].get(0).and_then(|x| x.as_u64()).map(|s| base + units(s));
+        let m = p["m"].get(0).and_then(|x| x.as_u64()).map(|s| i0 + units(s));
         match (w, m) {
             (Some(w), Some(m)) => PartialComplexTime::Complex(ComplexTime { wall: w, mono: m }),
             (Some(w), None) => PartialComplexTime::Wall(w),
@@ -186,8 +193,8 @@ mod timeconv {
 
     fn same(p: PartialComplexTime, exp: &Value, base: SystemTime, i0: Instant) -> bool {
         let (w, m) = p.destructure();
-        let ew = exp["w"].get(0).and_then(|x| x.as_i64()).map(|s| base + Duration::from_secs(s as u64));
-        let em = exp["m"].get(0).and_then(|x| x.as_i64()).map(|s| i0 + Duration::from_secs(s as u64));
+        let ew = exp["w"].get(0).and_then(|x| x.as_i64()).map(|s| base + units(s as u64));
+        let em = exp["m"].get(0).and_then(|x| x.as_i64()).map(|s| i0 + units(s as u64));
         w == ew && m == em && p.checked_to_system_time() == ew && p.checked_to_instant() == em
     }
 
@@ -199,6 +206,17 @@ mod timeconv {
         for v in vectors(vec_path) {
             out.n += 1;
             let k = v["k"].as_str().unwrap_or("");
+            let algebra = matches!(k, "add" | "sub" | "complete" | "after");
+            let post = base;
+            let pre = SystemTime::UNIX_EPOCH - Duration::new(124, 543_211_200);
+            let scales: Vec<(u64, SystemTime)> = if algebra {
+                vec![(1_000_000_000, post), (1_000_000_000, pre), (1_000, post + Duration::from_nanos(200)), (250, post + Duration::from_nanos(200)),
+                     (250, pre), (1, post + Duration::from_nanos(998)), (1, pre)]
+            } else {
+                vec![(1_000_000_000, post)]
+            };
+            for (unit_ns, base) in scales {
+            UNIT_NS.with(|u| u.set(unit_ns));
             let r = guarded(|| -> Vec<(String, Value)> {
                 let mut bad = vec![];
                 match k {
@@ -263,7 +281,7 @@ mod timeconv {
                     }
                     "add" | "sub" => {
                         let p = partial(&v["p"], base, i0);
-                        let d = Duration::from_secs(v["d"].as_u64().unwrap());
+                        let d = units(v["d"].as_u64().unwrap());
                         let r = if k == "add" { p + d } else { p - d };
                         let mut r2 = p;
                         if k == "add" {
@@ -300,7 +318,7 @@ mod timeconv {
                         let p = partial(&v["p"], base, i0);
                         let r = c.is_after_or_eq_any(p);
                         if Some(r) != v["exp"].as_bool() {
-                            bad.push(("is_after_or_eq_any differs".to_string(), json!(r)));
+                            bad.push((format!("is_after_or_eq_any differs (time unit {} ns, base {:?})", unit_ns, base), json!(r)));
                         }
                     }
                 }
@@ -313,6 +331,7 @@ mod timeconv {
                     }
                 }
                 Err(p) => out.bad("panic", &v, json!(p)),
+            }
             }
         }
         out.finish();
@@ -451,6 +470,12 @@ mod gen {
                             if h["res"] != res || h["v"].as_u64() != Some(val as u64) {
                                 bad.push((format!("poll #{} returned {} {} (model: {} {})", i + 1, res, val, h["res"], h["v"]), json!(i)));
                                 break;
+                            }
+                            if let Some(t) = h["term"].as_bool() {
+                                if futures::stream::FusedStream::is_terminated(&*s) != t {
+                                    bad.push((format!("after poll #{} is_terminated() is {} (model: {}): a consumer that trusts it stops too early / never stops", i + 1, !t, t), json!(i)));
+                                    break;
+                                }
                             }
                             let ip = if pos.get() == 0 { 1 } else { pos.get() };
                             if h["ip"].as_u64() != Some(ip as u64) {
@@ -976,7 +1001,9 @@ mod wire {
             "t2" => {
                 let mut a = App::builder().id("app-a").version([9, 9]).cohort(Cohort { id: None, hint: Some("h2".into()), name: Some("".into()) })
                     .fingerprint("fp2").build();
-                a.extra_fields.insert("k1".into(), "v1".into());
+                for j in 0..7 {
+                    a.extra_fields.insert(format!("k{}", j), format!("v{}", j));
+                }
                 a
             }
             _ => App::builder().id("app-b").version([0, 0, 0, 1]).user_counting(UserCounting::ClientRegulatedByDate(Some(0))).build(),
@@ -1475,12 +1502,25 @@ mod mock {
         }).collect()
     }
 
-    fn map_json(m: &Value) -> Value {
+    /// The reconfiguration document; `form` is how "no version assertion" / "this version" is spelt:
+    /// "null" (explicit nulls), "omitted" (optional keys absent), "match" (asserts the client's own version).
+    fn map_json(m: &Value, form: &str, appver: &str) -> Value {
         let mut o = serde_json::Map::new();
         for e in m.as_array().unwrap() {
-            o.insert(e["id"].as_str().unwrap().to_string(),
-                     json!({"response": e["kind"], "check_assertion": "UpdatesEnabled", "version": Value::Null, "cohort_assertion": Value::Null,
-                            "codebase": "fuchsia-pkg://integration.test.fuchsia.com/", "package_name": "update?hash=abc"}));
+            let mut ent = json!({"response": e["kind"], "check_assertion": "UpdatesEnabled",
+                                 "codebase": "fuchsia-pkg://integration.test.fuchsia.com/", "package_name": "update?hash=abc"});
+            match form {
+                "omitted" => {}
+                "match" => {
+                    ent["version"] = json!(appver);
+                    ent["cohort_assertion"] = Value::Null;
+                }
+                _ => {
+                    ent["version"] = Value::Null;
+                    ent["cohort_assertion"] = Value::Null;
+                }
+            }
+            o.insert(e["id"].as_str().unwrap().to_string(), ent);
         }
         Value::Object(o)
     }
@@ -1563,8 +1603,9 @@ mod mock {
         }
     }
 
-    fn apps_in(order: &Value) -> Vec<App> {
-        order.as_array().unwrap().iter().map(|id| App::builder().id(id.as_str().unwrap()).version([0, 1, 2, 3]).build()).collect()
+    fn apps_in(order: &Value, appver: &str) -> Vec<App> {
+        let ver: Version = appver.parse().unwrap_or_else(|_| Version::from([0, 1, 2, 3]));
+        order.as_array().unwrap().iter().map(|id| App::builder().id(id.as_str().unwrap()).version(ver.clone()).build()).collect()
     }
 
     pub fn run(vec_path: &str, out_path: &str) {
@@ -1575,6 +1616,7 @@ mod mock {
                 let mut bad = vec![];
                 let url = v["url"].as_str().unwrap();
                 let ck = v["ck"].as_u64().unwrap();
+                let appver = v["appver"].as_str().unwrap_or("0.1.2.3");
                 let cfg = config(url);
                 let handler = if ck == 0 { None } else { Some(StandardCupv2Handler::new(&public_keys(ck, &[]))) };
                 let server = Arc::new(Mutex::new(OmahaServer {
@@ -1587,7 +1629,7 @@ mod mock {
                 for st in v["steps"].as_array().unwrap() {
                     match st["op"].as_str().unwrap() {
                         "set" => {
-                            let req = http::Request::post("/set_responses_by_appid").body(hyper::Body::from(map_json(&st["map"]).to_string())).unwrap();
+                            let req = http::Request::post("/set_responses_by_appid").body(hyper::Body::from(map_json(&st["map"], st["form"].as_str().unwrap_or("null"), appver).to_string())).unwrap();
                             let r = futures::executor::block_on(mock_omaha_server::handle_request(req, &server));
                             if r.map(|x| x.status().as_u16()).unwrap_or(0) != 200 {
                                 bad.push(("reconfiguration request failed".into(), json!(st)));
@@ -1595,7 +1637,7 @@ mod mock {
                         }
                         "req" => {
                             let params = RequestParams::default();
-                            let apps = apps_in(&st["order"]);
+                            let apps = apps_in(&st["order"], appver);
                             let mut b = RequestBuilder::new(&cfg, &params);
                             for a in &apps {
                                 b = if st["rk"] == "uc" { b.add_update_check(a).add_ping(a) } else { b.add_event(a, Event::success(EventType::UpdateComplete)) };
@@ -1670,7 +1712,7 @@ mod mock {
                 // (under the response map in force at the end of the history)
                 {
                     let last = &v["final"];
-                    let apps = apps_in(&last["order"]);
+                    let apps = apps_in(&last["order"], appver);
                     let cup = if ck == 0 { None } else { Some(StandardCupv2Handler::new(&public_keys(ck, &[]))) };
                     let events: Vec<StateMachineEvent> = futures::executor::block_on(async {
                         StateMachineBuilder::new(
